@@ -52,6 +52,7 @@ Fixpoint dec_e (fuel : nat) (v : val) : option expr :=
       match (if k =? 0 then Some TSpecial else if k =? 1 then Some TDateTime else if k =? 2 then Some TSystem else if k =? 3 then Some TNumOf else None), get_n i with
       | Some k', Some i' => Some (EThe k' i') | _, _ => None end
     | VL [VZ 17; k] => option_map ETheN (get_n k)
+    | VL [VZ 19; k] => option_map EKey (get_n k)
     | VL [VZ 18; k; a] => match get_n k, dec_e f a with Some k', Some a' => Some (EAcc k' a') | _, _ => None end
     | _ => None
     end
